@@ -164,11 +164,7 @@ def _sig(v):
     if isinstance(v, SCALARS):
         return v if not isinstance(v, str) or len(v) < 64 else hash(v)
     if isinstance(v, (dict, list, set, frozenset, tuple)):
-        n = len(v)
-        if n <= 8:
-            vals = v.values() if isinstance(v, dict) else v
-            return (id(v), n, tuple(id(x) for x in vals))
-        return (id(v), n)
+        return (id(v), len(v))
     ci = getattr(v, "cache_info", None)
     if callable(ci):
         try:
@@ -209,7 +205,93 @@ class Watch:
 
     def poll(self, step: int) -> None:
         """Called before the instruction/line of `step` executes: a difference was made by step-1."""
-        cur = self._read()
+        cur = [(_sig(o) if st is None else _sig(_step(o, st))) for o, st in self.probes]
         if cur != self.last:
             self.last = cur
             self.writes.append(step - 1)
+
+
+# --------------------------------------------------------------------------- process-global library state
+_BASE: list | None = None
+
+
+def snapshot_module_state() -> int:
+    """Remember the library's module- and class-level state as it is now (after the fixed warm-up).  `reset_module_state`
+    puts it back before a run, so that a run is a function of its record alone even when the tree under test keeps
+    process-global memos (functools caches, module dicts, rebinding globals): what one run of a worker parsed must not
+    change the step counts of the next.  Returns the number of remembered places."""
+    global _BASE
+    import copy
+    base: list = []
+    seen: set[int] = set()
+
+    def scan(owner, d):
+        for k, v in list(d.items()):
+            if k.startswith("__") and k.endswith("__"):
+                continue
+            if isinstance(v, types.ModuleType):
+                continue
+            cc = getattr(v, "cache_clear", None)
+            if callable(cc):
+                if id(v) not in seen:
+                    seen.add(id(v))
+                    base.append(("cache", v))
+                continue
+            if isinstance(v, type):
+                m = sys.modules.get(getattr(v, "__module__", ""), None)
+                if m is not None and _is_lib_module(m) and id(v) not in seen:
+                    seen.add(id(v))
+                    scan(v, {a: b for a, b in vars(v).items()
+                             if not isinstance(b, (types.FunctionType, property, staticmethod, classmethod,
+                                                   types.MemberDescriptorType, types.GetSetDescriptorType,
+                                                   types.WrapperDescriptorType, types.MethodDescriptorType))})
+                continue
+            if isinstance(v, (types.FunctionType, types.BuiltinFunctionType)):
+                continue
+            if isinstance(v, SCALARS):
+                base.append(("attr", owner, k, v))
+            elif isinstance(v, (dict, list, set)):
+                if id(v) not in seen:
+                    seen.add(id(v))
+                    base.append(("cont", v, copy.copy(v)))
+                base.append(("attr", owner, k, v))
+
+    for name, m in sorted(sys.modules.items()):
+        if (name == "markdown_it" or name.startswith("markdown_it.")) and m is not None and _is_lib_module(m):
+            scan(m, vars(m))
+    _BASE = base
+    return len(base)
+
+
+def reset_module_state() -> int:
+    """Put the remembered module/class-level state back; returns how many places had changed."""
+    changed = 0
+    for e in _BASE or ():
+        if e[0] == "cache":
+            try:
+                if e[1].cache_info().currsize:
+                    changed += 1
+                e[1].cache_clear()
+            except Exception:  # noqa: BLE001
+                pass
+        elif e[0] == "cont":
+            _, obj, saved = e
+            if obj != saved:
+                changed += 1
+                obj.clear()
+                if isinstance(obj, dict):
+                    obj.update(saved)
+                elif isinstance(obj, list):
+                    obj.extend(saved)
+                else:
+                    obj.update(saved)
+        else:
+            _, owner, k, v = e
+            cur = owner.__dict__.get(k, _MISSING) if isinstance(owner, type) else getattr(owner, k, _MISSING)
+            if cur is not v and not (isinstance(v, SCALARS) and cur == v and type(cur) is type(v)):
+                changed += 1
+                try:
+                    setattr(owner, k, v)
+                except (AttributeError, TypeError):
+                    pass
+    return changed
